@@ -16,7 +16,7 @@
 (* the single Next step prints.                                            *)
 (***************************************************************************)
 EXTENDS SodgCore, Json
-CONSTANTS Cap, GIds, HIds, Labels, MaxG, MaxH, MaxExtra, WithReads
+CONSTANTS Cap, GIds, HIds, Labels, MaxG, MaxH, MaxExtra, WithReads, WithGhosts
 
 RECURSIVE Anc(_, _, _)
 Anc(par, v, n) == IF n = 0 \/ v \notin DOMAIN par THEN {v} ELSE {v} \cup Anc(par, par[v], n - 1)
@@ -103,14 +103,26 @@ Contract(g, h, left, right, r) ==
   \* GC state as if by add/bind/put: every new vertex sits in its parent's group
   /\ \A v \in new : GroupOf(r.g, v) # {} /\ \E u \in GroupOf(r.g, v) : v \in TargetsOf(r.g, u)
 
-VARIABLES tg, th, tx, left, done
-Init == /\ tg \in {t \in Trees(GIds, MaxG) : GoodTree(t)}
+\* history of the left graph: a group of two vertices outside the tree that lived and was collected before the tree is
+\* built (stale slot contents; the allocator hands their ids out again)
+GhostCalls(t, on) ==
+  LET free == (0..(Cap - 1)) \ t.verts IN
+  IF ~on \/ Cardinality(free) < 2 THEN <<>>
+  ELSE LET a == CHOOSE x \in free : \A y \in free : x <= y
+           b == CHOOSE x \in free \ {a} : \A y \in free \ {a} : x <= y
+           l == CHOOSE x \in Labels : TRUE IN
+       <<[op |-> "add", v |-> a], [op |-> "add", v |-> b], [op |-> "bind", v1 |-> a, v2 |-> b, a |-> l],
+         [op |-> "put", v |-> b, d |-> "x"], [op |-> "data", v |-> b]>>
+
+VARIABLES tg, th, tx, left, ghost, done
+Init == /\ ghost \in (IF WithGhosts THEN BOOLEAN ELSE {FALSE})
+        /\ tg \in {t \in Trees(GIds, MaxG) : GoodTree(t)}
         /\ th \in {t \in Trees(HIds, MaxH) : GoodTree(t)}
         /\ tx \in Extras(th, HIds)
         /\ left \in tg.verts
         /\ done = FALSE
-Next == /\ ~done /\ done' = TRUE /\ UNCHANGED <<tg, th, tx, left>>
-        /\ LET gc == Calls(tg)
+Next == /\ ~done /\ done' = TRUE /\ UNCHANGED <<tg, th, tx, left, ghost>>
+        /\ LET gc == GhostCalls(tg, ghost) \o Calls(tg)
                hc == Calls(th) \o ExtraCalls(tx)
                ok == Legal(EmptyG(Cap), gc, 1) /\ Legal(EmptyG(Cap), hc, 1)
                g == Build(EmptyG(Cap), gc, 1)
